@@ -168,7 +168,7 @@ H(a, id, ifn, port, p, masked, k, d, i) ==
 L(a, res, why, woke) == [a |-> a, res |-> res, why |-> why, woke |-> woke]
 
 Init == /\ ifl = [i \in Ids |-> NoIfl] /\ lcorder = <<>> /\ nreg = 0
-        /\ started = FALSE /\ shut = FALSE /\ buf = BufInit
+        /\ started = FALSE /\ shut = 0 /\ buf = BufInit
         /\ q = [e \in EP |-> <<>>] /\ closed = {} /\ parked = {} /\ cpend = {}
         /\ hold = [x \in Ids \X Kinds |-> 0]
         /\ item = <<>> /\ wire = [i |-> 0, src |-> None]
@@ -207,16 +207,16 @@ Start ==
     /\ H("Start", "", "", 0, <<>>, TRUE, "", <<>>, 0)
     /\ UNCHANGED <<ifl, lcorder, nreg, shut, buf, q, closed, parked, cpend, hold, item, wire>>
 
-\* the second Shutdown reports net.ErrClosed
+\* the second Shutdown reports net.ErrClosed (shut counts the calls; two are enough to see both answers)
 Shutdown ==
-    /\ started /\ shut' = TRUE /\ last' = L("Shutdown", IF shut THEN 0 ELSE 1, {}, {})
+    /\ started /\ shut < 2 /\ shut' = shut + 1 /\ last' = L("Shutdown", IF shut > 0 THEN 0 ELSE 1, {}, {})
     /\ H("Shutdown", "", "", 0, <<>>, TRUE, "", <<>>, 0)
     /\ UNCHANGED <<ifl, lcorder, nreg, started, buf, q, closed, parked, cpend, hold, item, wire>>
 
 NewItem(k, id, d, ep, st, cl) == [kind |-> k, id |-> id, dst |-> d, ep |-> ep, st |-> st, cl |-> cl, ans |-> FALSE]
 
 Dispatch(k, id, d) ==
-    /\ started /\ ~shut /\ id \in Added /\ hold[<<id, k>>] = 0 /\ Len(item) < MaxItems
+    /\ started /\ shut = 0 /\ id \in Added /\ hold[<<id, k>>] = 0 /\ Len(item) < MaxItems
     /\ LET i == Len(item) + 1
            t == ImplTarget(id, d, k)
            ep == <<id, t, k>>
@@ -294,7 +294,7 @@ Close(k, id, p) ==
     /\ UNCHANGED <<ifl, lcorder, nreg, started, shut, buf, q, hold, item, wire>>
 
 WriteBack(i) ==
-    /\ started /\ ~shut /\ i \in 1..Len(item)
+    /\ started /\ shut = 0 /\ i \in 1..Len(item)
     /\ item[i].kind = "udp" /\ item[i].st = "recvd" /\ ~item[i].ans
     /\ item' = [item EXCEPT ![i].ans = TRUE]
     /\ wire' = [i |-> i, src |-> IF Defect = "wb_wildcard" THEN <<>> ELSE item[i].dst]
